@@ -170,6 +170,36 @@ def make_expand(tier, merged):
 
 
 # ---------------------------------------------------------------------------
+# long sessions: what is printed grows with the session (an accumulated filter of many names, a long matcher typed in
+# one go, a long listing); any shortening, wrapping or counting of what is shown must be the same with and without colour
+
+NAMES = ['wl_registry', 'wl_seat', 'wl_compositor', 'wl_surface', 'wl_pointer', 'wl_keyboard', 'xdg_toplevel', 'wl_callback',
+         'wl_shm_pool', 'wl_buffer', 'xdg_surface', 'wl_data_device']
+
+
+def gen_long_sessions(tier):
+    rounds = 6 if tier == 'quick' else 14
+    for per in (1, 3):
+        for verb in ('filter', 'breakpoint'):
+            h = []
+            for k in range(rounds):
+                names = [NAMES[(k * per + j) % len(NAMES)] + ('' if k < len(NAMES) else '.m%d' % k) for j in range(per)]
+                h += [['cmd', '%s %s' % (verb, ', '.join(names))], ['cmd', 'list'], ['cmd', 'list ~ 1'], ['cmd', verb], ['next'],
+                      ['cmd', 'list wl_surface ~ 2']]
+            yield {'history': h}
+    for n in (4, 7, 12, 40) if tier == 'quick' else (4, 7, 12, 40, 200):
+        expr = ', '.join('%s.[%s](%s)' % (NAMES[i % len(NAMES)], ', '.join('m%d' % j for j in range(3)), 'a=%d, "s %d"' % (i, i)) for i in range(n))
+        yield {'history': [['next'], ['cmd', 'matcher ' + expr], ['cmd', 'list ' + expr], ['cmd', 'list ! ' + expr + ' ~ 3'],
+                           ['cmd', 'filter ' + expr], ['cmd', 'filter'], ['next'], ['cmd', 'breakpoint ' + expr], ['cmd', 'breakpoint'], ['next'],
+                           ['cmd', 'list'], ['cmd', 'list [' + expr]]}
+
+
+def eval_long_session(case):
+    V, key = run_hist(case['history'])
+    return Eval(V, outcome=key, nontrivial=True, transitions=len(case['history']) + SCRIPT_START)
+
+
+# ---------------------------------------------------------------------------
 # paste-back
 
 def fragments(lines):
@@ -190,10 +220,25 @@ def eval_paste(case):
     V = []
     text = case['text']
     prefix = {'command': '', 'list': 'list ', 'filter': 'filter ', 'matcher': 'matcher ', 'connection': 'connection ',
-              'breakpoint': 'breakpoint '}[case['as']]
+              'breakpoint': 'breakpoint ', 'option_f': None, 'option_b': None}[case['as']]
     res = []
     try:
         for variant in (text, sut.strip_sgr(text)):
+            if prefix is None:
+                # pasted as the value of -f / -b on the command line (the tool's own parse_args)
+                try:
+                    s = sut.Session(color=case['colour'], **{'filt' if case['as'] == 'option_f' else 'stop': variant})
+                except RuntimeError:
+                    # parse_args says the value is no matcher (its own RuntimeError, or the exit that
+                    # matchers_from_command_line turns into one)
+                    res.append(([], [], 'rejected on the command line', None))
+                    continue
+                for l in universe_lines()[:SCRIPT_START]:
+                    s.feed_line(l)
+                out, err = s.take()
+                frame = [s.cmd(c)[0] for c in ('filter', 'breakpoint', 'connection')]
+                res.append(([sut.strip_sgr(x) for x in out], [sut.strip_sgr(x) for x in err], None, frame))
+                continue
             s = sut.Session(color=case['colour'])
             for l in universe_lines()[:SCRIPT_START]:
                 s.feed_line(l)
@@ -229,7 +274,7 @@ def eval_paste(case):
 
 def gen_paste(frags):
     for f in frags:
-        for how in ('command', 'list', 'filter', 'matcher', 'connection', 'breakpoint'):
+        for how in ('command', 'list', 'filter', 'matcher', 'connection', 'breakpoint', 'option_f', 'option_b'):
             for colour in (False, True):
                 yield {'text': f, 'as': how, 'colour': colour}
             if how in ('command', 'list', 'connection'):
@@ -383,6 +428,9 @@ def run(run, tier, seed):
     run.add_part('lockstep_unmerged', res)
     res = explore.bfs(make_expand(tier, True), d_me, seed=seed, merge=True, bound={'depth': d_me, 'merged': True})
     run.add_part('lockstep_merged', res)
+    res = explore.prod(lambda: gen_long_sessions(tier), eval_long_session, seed=seed,
+                       bound={'accumulating_commands': 6 if tier == 'quick' else 14, 'alternatives_in_one_matcher': 40 if tier == 'quick' else 200})
+    run.add_part('long_sessions', res)
     # collect what the tool printed with colour on: every event once after the prelude, and in pairs
     seen = set()
     for ev in events(tier):
